@@ -18,7 +18,7 @@ pub const SPEC: Spec = Spec {
     rule: "a 1->1 program IR (an expression of a drawn arrow A->B wrapped as comp (comp const e) unit), Core or Elements jet family, 4..150 nodes, all combinator kinds, sharing probability swept 0..0.6. (a) commit time: disconnect without branch, witness/disconnect-bearing sub-expressions never shared; construct -> finalize_types -> to_vec_without_witness -> CommitNode::decode. (b) redemption time: witnesses generated for the inferred types; finalize_unpruned (and prune, when the Core program runs) -> to_vec_with_witness -> RedeemNode::decode. Oracle (round-trip): MaxSharing post-order walks of original and decoded program agree element-wise in combinator, payload, child indices, cmr, arrow, ihr/amr where defined and witness bits; re-encoding reproduces the bytes. Non-trivial: >= 8 encoded nodes and at least one of {in-degree >= 2, non-empty witness value, hidden branch, disconnect, duplicates merged by the encoder}. Distinct by (program bytes, witness bytes).",
     design_ref: "§6 C01",
     max_len: 1500,
-    quick_cases: 12_000,
+    quick_cases: 40_000,
     thorough_cases: 300_000,
     ..Spec::base("C01", "Program and witness bit-encoding round-trips", case)
 };
